@@ -59,6 +59,61 @@ func streamT(m *MsgT) (chan *Reply, chan bool, error) {
 	return out, stop, nil
 }
 
+// MsgU is the argument of the streaming handler whose requests of one session share one
+// stop channel (the documented bidirectional use of ProcessClientStreamRequest).
+type MsgU struct {
+	Sess string
+	I    int64
+}
+
+var shareMu sync.Mutex
+var shareStops = map[string]chan bool{}
+
+func streamU(m *MsgU) (chan *Reply, chan bool, error) {
+	shareMu.Lock()
+	stop, ok := shareStops[m.Sess]
+	if !ok {
+		stop = make(chan bool)
+		shareStops[m.Sess] = stop
+	}
+	shareMu.Unlock()
+	out := make(chan *Reply, 2)
+	go func() {
+		out <- &Reply{5, m.Sess, m.I, false, nil}
+		<-stop
+		close(out)
+	}()
+	return out, stop, nil
+}
+
+// shareRounds: shareRoundsN times, a client of its own sends n requests of one session on
+// one stream, reads the n answers and goes away without a close handshake.
+const shareRoundsN = 40
+
+func shareRounds(srv *onet.Server, n int) {
+	port, _ := strconv.Atoi(srv.ServerIdentity.Address.Port())
+	url := fmt.Sprintf("ws://%s:%d/%s/MsgU", srv.ServerIdentity.Address.Host(), port+1, svcName)
+	for r := 0; r < shareRoundsN; r++ {
+		d := websocket.Dialer{HandshakeTimeout: 5 * time.Second}
+		conn, _, err := d.Dial(url, nil)
+		if err != nil {
+			return
+		}
+		ok := true
+		for k := 0; k < n && ok; k++ {
+			buf, _ := protobuf.Encode(&MsgU{fmt.Sprintf("s%d-%d", port, r), int64(k)})
+			ok = conn.WriteMessage(websocket.BinaryMessage, buf) == nil
+		}
+		for k := 0; k < n && ok; k++ {
+			conn.SetReadDeadline(time.Now().Add(5 * time.Second))
+			_, _, err := conn.ReadMessage()
+			ok = err == nil
+		}
+		conn.Close()
+	}
+	time.Sleep(150 * time.Millisecond)
+}
+
 type streamConv struct {
 	Client int     `json:"c"`
 	Msgs   []wsReq `json:"msgs"` // Path is ignored
@@ -1144,6 +1199,7 @@ type storeOp struct {
 }
 
 type storeInput struct {
+	Share int       `json:"share,omitempty"` // > 0: first the shared-stop stream rounds with so many requests
 	Keeps []bool    `json:"keeps"`
 	Ops   []storeOp `json:"ops"`
 }
@@ -1177,6 +1233,9 @@ func runStore(in *input, emit func(interface{}), started *bool) (discard bool, h
 		}
 	}()
 	*started = true
+	if in.Store.Share > 0 {
+		shareRounds(srv, in.Store.Share)
+	}
 	for _, op := range in.Store.Ops {
 		var o obsReply
 		fin := make(chan struct{})
@@ -1254,6 +1313,10 @@ func storeCase(in *input, lines []json.RawMessage, died string) lib.Case {
 	}
 	class += endSuffix(died)
 	coq := fmt.Sprintf("CStore %s\n    %s\n    %s", lib.List(ks), lib.List(os), lib.List(rs))
+	if st.Share > 0 {
+		class = "share-" + class
+		coq = fmt.Sprintf("CShare %d %s\n    %s\n    %s", st.Share, lib.List(ks), lib.List(os), lib.List(rs))
+	}
 	return lib.Case{Coq: coq, Class: class, Obs: obs, Nontrivial: len(ops) > 1}
 }
 
